@@ -1030,3 +1030,138 @@ func c01uuid(c *core.Ctx) {
 		c.Check(bad == "", R, core.F("%s:len%d", fn, L), c.P.Pos(d.Decl.Pos()), core.F("all %d positions of the %d-character form are examined by the right test", L, L), bad)
 	}
 }
+
+// returnedValues: the values a function returns in result position i, looking through the
+// slots go/ssa spills results into when the function has defers.
+func returnedValues(f *ssa.Function, i int) []ssa.Value {
+	var out []ssa.Value
+	for _, b := range f.Blocks {
+		for _, in := range b.Instrs {
+			r, ok := in.(*ssa.Return)
+			if !ok || len(r.Results) <= i {
+				continue
+			}
+			v := r.Results[i]
+			if u, ok := v.(*ssa.UnOp); ok {
+				if al, ok := u.X.(*ssa.Alloc); ok {
+					for _, ref := range *al.Referrers() {
+						if st, ok := ref.(*ssa.Store); ok && st.Addr == al {
+							out = append(out, st.Val)
+						}
+					}
+					continue
+				}
+			}
+			out = append(out, v)
+		}
+	}
+	return out
+}
+
+// freshBytes: is the []byte value v newly allocated (not a view of longer-lived storage)?
+func freshBytes(c *core.Ctx, v ssa.Value, depth int, why *string) bool {
+	if depth > 6 {
+		*why = "too deep to decide"
+		return false
+	}
+	switch x := v.(type) {
+	case *ssa.Const:
+		return true // nil
+	case *ssa.MakeSlice, *ssa.Convert:
+		return true
+	case *ssa.Phi:
+		for _, e := range x.Edges {
+			if !freshBytes(c, e, depth+1, why) {
+				return false
+			}
+		}
+		return true
+	case *ssa.Extract:
+		if call, ok := x.Tuple.(*ssa.Call); ok {
+			return freshCall(c, call, x.Index, depth, why)
+		}
+	case *ssa.Call:
+		return freshCall(c, x, 0, depth, why)
+	case *ssa.Slice:
+		return freshBytes(c, x.X, depth+1, why)
+	case *ssa.UnOp:
+		if al, ok := x.X.(*ssa.Alloc); ok {
+			for _, ref := range *al.Referrers() {
+				if st, ok := ref.(*ssa.Store); ok && st.Addr == al && !freshBytes(c, st.Val, depth+1, why) {
+					return false
+				}
+			}
+			return true
+		}
+	}
+	*why = "value of kind " + strings.TrimPrefix(core.F("%T", v), "*ssa.") + " (" + v.String() + ")"
+	return false
+}
+
+func freshCall(c *core.Ctx, call *ssa.Call, idx, depth int, why *string) bool {
+	if b, ok := call.Call.Value.(*ssa.Builtin); ok {
+		if b.Name() == "append" {
+			return freshBytes(c, call.Call.Args[0], depth+1, why)
+		}
+		*why = "builtin " + b.Name()
+		return false
+	}
+	callees := c.P.Callees(call)
+	if len(callees) == 0 {
+		*why = "unresolved call " + call.String()
+		return false
+	}
+	for _, g := range callees {
+		name := core.FuncName(g)
+		if name == "(bytes.Bytes).Data" {
+			*why = "(bytes.Bytes).Data(): the storage of the text itself"
+			return false
+		}
+		if !c.P.FuncInModule(g) || g.Blocks == nil {
+			// standard library producers of fresh slices
+			switch {
+			case strings.HasPrefix(name, "encoding/json.Marshal"), strings.HasPrefix(name, "strconv.Append"), name == "(*bytes.Buffer).Bytes", strings.HasPrefix(name, "bytes."):
+				continue
+			}
+			*why = "out-of-module call " + name
+			return false
+		}
+		for _, rv := range returnedValues(g, idx) {
+			if !freshBytes(c, rv, depth+1, why) {
+				if !strings.Contains(*why, " <- ") {
+					*why += " <- " + name
+				}
+				return false
+			}
+		}
+	}
+	return true
+}
+
+// freshResultRule: byte results of the API are the caller's own.
+func freshResultRule(R string) RuleFunc {
+	return func(c *core.Ctx) {
+		c.Rule(R, "the []byte a public Example() hands out is freshly allocated on every path (make, append to a nil/fresh slice, string conversion, a JSON encoder's result, or a callee with the same property - traced through up to 6 calls and go/ssa's result slots): never the Data() of a Bytes, which is the file content itself. A caller that edits its result otherwise edits the schema text: the next Example(), Check() or error rendering sees the edited text")
+		c.Floor(R, 2)
+		for _, name := range []string{"(*notations/jschema.JSchema).Example", "(*notations/regex.RSchema).Example"} {
+			var f *ssa.Function
+			for g := range c.P.AllFuncs {
+				if core.FuncName(g) == name {
+					f = g
+				}
+			}
+			if f == nil {
+				c.Unresolved(R, name)
+				continue
+			}
+			why := ""
+			ok := true
+			for _, rv := range returnedValues(f, 0) {
+				if !freshBytes(c, rv, 0, &why) {
+					ok = false
+				}
+			}
+			c.Check(ok, R, name, c.P.Pos(f.Pos()), "the bytes returned by "+name+" are freshly allocated on every path", "a returned value is not fresh: "+why)
+		}
+	}
+}
